@@ -581,15 +581,42 @@ def waitmacro_sites(db, unit='qmail-rspawn.c'):
     }
     out = {}
     bad_c = bad_e = None
-    mc, me = u.macros.get('wait_crashed'), u.macros.get('wait_exitcode')
-    if not mc or not me or not mc.get('fn') or not me.get('fn'):
-        raise AnalysisBroken('%s: wait_crashed / wait_exitcode are not function-like macros' % unit)
+    def evaluator(name):
+        m = u.macros.get(name)
+        if m and m.get('fn'):
+            return lambda w, m=m: _c_eval(m['body'], dict(glibc, **{m['params'][0]: w}))
+        # not a macro: a function (static inline in the header, or a routine of its own) - run it
+        fn = None
+        for prog_ in db.programs.values() if hasattr(db, 'programs') else []:
+            fn = prog_.resolve(name, unit)
+            if fn is not None and fn.blocks:
+                break
+        if fn is None or not fn.blocks:
+            for uu in db.units.values():
+                if name in uu.functions and uu.functions[name].blocks:
+                    fn = uu.functions[name]
+        if fn is None or not fn.blocks or len(fn.params) != 1:
+            raise AnalysisBroken('%s: %s is neither a function-like macro nor a one-argument function' % (unit, name))
+
+        def run(w, fn=fn):
+            rets = []
+
+            class RH(Conc):
+                def on_return(self, E, f, v):
+                    if f.name == fn.name:
+                        rets.append(v)
+            prog_ = next(iter(db.programs.values())) if hasattr(db, 'programs') and db.programs else None
+            e = Engine(db, prog_ or db.program('qmail-rspawn'), RH(name), max_states=5000)
+            e.run(fn, {'%s::%s' % (e.frame_id(fn), fn.params[0]): fs(w)})
+            return one(rets[0]) if len(rets) == 1 else None
+        return run
+    ev_c, ev_e = evaluator('wait_crashed'), evaluator('wait_exitcode')
     words = [c << 8 for c in range(256)] + [s for s in range(1, 127)] + [s | 0x80 for s in range(1, 127)]
     for w in words:
-        vc = _c_eval(mc['body'], dict(glibc, **{mc['params'][0]: w}))
-        ve = _c_eval(me['body'], dict(glibc, **{me['params'][0]: w}))
+        vc = ev_c(w)
+        ve = ev_e(w)
         if vc is None or ve is None:
-            raise AnalysisBroken('%s: cannot evaluate %r / %r' % (unit, mc['body'], me['body']))
+            raise AnalysisBroken('%s: cannot evaluate wait_crashed / wait_exitcode for the status word 0x%04x' % (unit, w))
         crashed = (w & 127) != 0
         if bool(vc) != crashed and bad_c is None:
             bad_c = ('status word 0x%04x (%s): wait_crashed() is %d' % (w, ('killed by signal %d%s' % (w & 127, ', core dumped' if w & 0x80 else '')) if crashed else 'exit code %d' % (w >> 8), vc))
